@@ -1230,6 +1230,14 @@ func checkUniquenessSetsKeepSeeds(c *core.Ctx, r *core.Rule, prog *core.Prog, pk
 									}
 								}
 							}
+							// the same key put back right after the clear keeps the reservation alive
+							for _, b3 := range fn.Blocks {
+								for _, in3 := range b3.Instrs {
+									if mu2, ok := in3.(*ssa.MapUpdate); ok && mu2 != mu && mu2.Map == m && (mu2.Key == mu.Key || core.SameValue(mu2.Key, mu.Key) || sameStableLoad(mu2.Key, mu.Key)) && (call.Block() == b3 || call.Block().Dominates(b3)) {
+										allAfter = false
+									}
+								}
+							}
 							if allAfter {
 								bad = true
 								r.Fail("seed-wiped:"+fnKeyFull(fn), c.Pos(mu.Pos()), fmt.Sprintf("%s inserts a reserved entry into a set that is cleared (%s) before anything reads it: the reservation (e.g. the type's own name among the names its members must avoid) has no effect", fn.Name(), c.Pos(call.Pos())))
@@ -1247,4 +1255,32 @@ func checkUniquenessSetsKeepSeeds(c *core.Ctx, r *core.Rule, prog *core.Prog, pk
 	if n == 0 {
 		r.Pass("no clear() on a map in scope: sets are rebuilt by allocation, seeds included")
 	}
+}
+
+
+// sameStableLoad: two loads of one variable cell that is not stored to in the loading function.
+func sameStableLoad(a, b ssa.Value) bool {
+	la, ok1 := a.(*ssa.UnOp)
+	lb, ok2 := b.(*ssa.UnOp)
+	if !ok1 || !ok2 || la.Op != token.MUL || lb.Op != token.MUL || la.X != lb.X {
+		return false
+	}
+	switch la.X.(type) {
+	case *ssa.FreeVar, *ssa.Alloc, *ssa.Global:
+	default:
+		return false
+	}
+	if refs := la.X.Referrers(); refs != nil {
+		n := 0
+		for _, ref := range *refs {
+			if st, ok := ref.(*ssa.Store); ok && st.Addr == la.X {
+				n++
+			}
+		}
+		if _, isAlloc := la.X.(*ssa.Alloc); isAlloc {
+			return n <= 1
+		}
+		return n == 0
+	}
+	return true
 }
